@@ -200,6 +200,9 @@ def rule_endpoints(ctx, r):
             f = idx.functions[fk]
             for n in walk_no_nested(f.node):
                 if isinstance(n, ast.Subscript) and isinstance(n.ctx, ast.Load) and isinstance(n.value, ast.Attribute) and n.value.attr == "dependents":
+                    par = getattr(n, "_parent", None)
+                    if isinstance(par, ast.Attribute) and par.attr in ("add", "update", "append", "extend", "discard", "remove"):
+                        continue  # `dependents[x].add(y)` records a real dependent of x: x rightly stops being an endpoint
                     loads.append((f, n))
         calls_ep = any(isinstance(c.func, ast.Attribute) and c.func.attr == "endpoints" for fk in fns for c in _calls(idx.functions[fk].node))
         if loads and calls_ep and f"{CORE}:Graph.endpoints" in fns:
